@@ -1040,4 +1040,109 @@ theorem paragraph_words (t : Str) : Sub (atoms t) (dictAtoms (getParagraphData t
           exact Or.inr (Or.inr this)
       exact hitems _ _ _ hx'
 
+/-! ### all paragraphs -/
+
+theorem dropWhileSpTab_decomp (s : Str) : ∃ w, (∀ c ∈ w, sep c = true) ∧ s = w ++ dropWhileSpTab s := by
+  induction s with
+  | nil => exact ⟨[], by simp, rfl⟩
+  | cons c cs ih =>
+    unfold dropWhileSpTab
+    by_cases h : (decide (c = ' ') || decide (c = '\t')) = true
+    · rw [if_pos h]
+      obtain ⟨w, hw, hdec⟩ := ih
+      refine ⟨c :: w, ?_, by rw [List.cons_append, ← hdec]⟩
+      intro d hd
+      rcases List.mem_cons.mp hd with rfl | hd
+      · simp only [Bool.or_eq_true, decide_eq_true_eq] at h
+        rcases h with rfl | rfl <;> decide
+      · exact hw d hd
+    · rw [if_neg h]; exact ⟨[], by simp, rfl⟩
+
+theorem skipBlankLines_decomp (fuel : Nat) (s : Str) : ∃ w, (∀ c ∈ w, sep c = true) ∧ s = w ++ skipBlankLines fuel s := by
+  induction fuel generalizing s with
+  | zero => exact ⟨[], by simp, rfl⟩
+  | succ n ih =>
+    unfold skipBlankLines
+    obtain ⟨w1, hw1, hd1⟩ := dropWhileSpTab_decomp s
+    split
+    · rename_i rest heq
+      obtain ⟨w2, hw2, hd2⟩ := ih rest
+      refine ⟨w1 ++ '\n' :: w2, ?_, ?_⟩
+      · intro d hd
+        simp only [List.mem_append, List.mem_cons] at hd
+        rcases hd with h | rfl | h
+        · exact hw1 d h
+        · decide
+        · exact hw2 d h
+      · conv => lhs; rw [hd1, heq, hd2]
+        simp [List.append_assoc]
+    · exact ⟨[], by simp, rfl⟩
+
+theorem splitParagraphsAux_atoms (fuel : Nat) : ∀ (text cur : Str), text.length < fuel →
+    Sub (atoms (cur.reverse ++ text)) ((splitParagraphsAux fuel text cur).flatMap atoms) := by
+  induction fuel with
+  | zero => intro text cur h; omega
+  | succ n ih =>
+    intro text cur hlen
+    cases text with
+    | nil =>
+      simp only [splitParagraphsAux, List.append_nil, List.flatMap_cons, List.flatMap_nil]
+      exact Sub.refl _
+    | cons c rest =>
+      simp only [List.length_cons] at hlen
+      unfold splitParagraphsAux
+      by_cases hc : (c = '\n' && headP (· = '\n') rest) = true
+      · rw [if_pos hc]
+        simp only [Bool.and_eq_true, decide_eq_true_eq] at hc
+        obtain ⟨hc1, hc2⟩ := hc
+        subst hc1
+        obtain ⟨r2, hr⟩ : ∃ r2, rest = '\n' :: r2 := by
+          cases rest with
+          | nil => simp [headP] at hc2
+          | cons d ds => simp only [headP, decide_eq_true_eq] at hc2; exact ⟨ds, by rw [hc2]⟩
+        subst hr
+        obtain ⟨w, hw, hdec⟩ := skipBlankLines_decomp (('\n' :: r2).length) r2
+        have hlen2 : (skipBlankLines ('\n' :: r2).length ('\n' :: r2 : Str).tail).length < n := by
+          simp only [List.tail_cons]
+          have : r2.length = w.length + (skipBlankLines ('\n' :: r2).length r2).length := by
+            conv => lhs; rw [hdec]
+            simp
+          simp only [List.length_cons] at hlen
+          omega
+        have ih' := ih (skipBlankLines ('\n' :: r2).length ('\n' :: r2 : Str).tail) [] hlen2
+        simp only [List.reverse_nil, List.nil_append, List.tail_cons] at ih'
+        simp only [List.flatMap_cons, List.tail_cons]
+        rw [atoms_sep cur.reverse _ '\n' (by decide), atoms_cons_sep '\n' r2 (by decide)]
+        apply Sub.append (Sub.left _ _)
+        apply Sub.trans _ (Sub.trans ih' (Sub.right _ _))
+        conv => lhs; rw [hdec]
+        rw [atoms_allsep_append w _ hw]
+        exact Sub.refl _
+      · rw [if_neg hc]
+        have := ih rest (c :: cur) (by omega)
+        simpa [List.append_assoc] using this
+
+/-- **every word of the text appears in a key or a value of one of the mappings of `get_paragraphs_data(text)`** -/
+theorem paragraphs_words (t : Str) : Sub (atoms t) ((getParagraphsData t).flatMap dictAtoms) := by
+  unfold getParagraphsData splitInParagraphs
+  have h1 := splitParagraphsAux_atoms (t.length + 1) t [] (by omega)
+  simp only [List.reverse_nil, List.nil_append] at h1
+  intro x hx
+  obtain ⟨piece, hp, hxp⟩ := List.mem_flatMap.mp (h1 x hx)
+  have hne : piece ≠ [] := by intro e; rw [e] at hxp; simp [atoms_nil] at hxp
+  rw [List.flatMap_map]
+  refine List.mem_flatMap.mpr ⟨piece, List.mem_filter.mpr ⟨hp, by cases piece <;> simp_all⟩, ?_⟩
+  exact paragraph_words piece x hxp
+
+/-- **C08 for every text** -/
+theorem sound (t : Str) : holdsOn t (model t) = true := by
+  unfold holdsOn model
+  simp only [Bool.and_eq_true]
+  exact ⟨(subset_iff _ _).mpr (paragraph_words t), (subset_iff _ _).mpr (paragraphs_words t)⟩
+
+/-- non-vacuity: the words of a text with a repeated field, a continuation line, a body and a second paragraph -/
+example : atoms "Package: a\nDepends: b,\n c (>= 1)\nPackage: A\n\nbody: x\n\n\nSecond: p".toList =
+    ["package", "a", "depends", "b,", "c", "(>=", "1)", "package", "a", "body", "x", "second", "p"].map String.toList := by
+  decide +kernel
+
 end Props.C08W
